@@ -63,19 +63,27 @@ theorem linv_idle {s s' : State} {a : ActorId} {c : Choice} (inv1 : Inv1 s) (bnd
   conc_split hs
   all_goals (
     refine ⟨?_, fun b t => ?_, ?_, ?_⟩
-    · clear l2 i2 b2
-      (try log_simp); grind
-    · have := l2 b t; have := i2 b; have := b2 b t
+    · first
+      | exact l1
+      | (clear l2 i2 b2
+         (try log_simp); grind)
+    · have hl2b := l2 b t; have := i2 b; have := b2 b t
       clear l2 i2 b2
       by_cases hba : b = a
       · subst hba; (try log_simp); grind
       · have hab : ¬ a = b := fun h => hba h.symm
         try simp only [State.put, State.putS, State.finish, State.write, upd_apply, if_neg hba, if_neg hab]
-        (try log_simp); grind
-    · clear l2 i2 b2
-      (try log_simp); grind
-    · clear l2 i2 b2
-      (try log_simp); grind)
+        first
+        | exact hl2b
+        | ((try log_simp); grind)
+    · first
+      | exact l3
+      | (clear l2 i2 b2
+         (try log_simp); grind)
+    · first
+      | exact l4
+      | (clear l2 i2 b2
+         (try log_simp); grind))
 
 set_option maxHeartbeats 1000000 in
 theorem linv_begin {s s' : State} {a : ActorId} {c : Choice} (inv1 : Inv1 s) (bnd : Bnd s) (g : Linv s)
@@ -93,19 +101,27 @@ theorem linv_begin {s s' : State} {a : ActorId} {c : Choice} (inv1 : Inv1 s) (bn
   conc_split hs
   all_goals (
     refine ⟨?_, fun b t => ?_, ?_, ?_⟩
-    · clear l2 i2 b2
-      (try log_simp); grind
-    · have := l2 b t; have := i2 b; have := b2 b t
+    · first
+      | exact l1
+      | (clear l2 i2 b2
+         (try log_simp); grind)
+    · have hl2b := l2 b t; have := i2 b; have := b2 b t
       clear l2 i2 b2
       by_cases hba : b = a
       · subst hba; (try log_simp); grind
       · have hab : ¬ a = b := fun h => hba h.symm
         try simp only [State.put, State.putS, State.finish, State.write, upd_apply, if_neg hba, if_neg hab]
-        (try log_simp); grind
-    · clear l2 i2 b2
-      (try log_simp); grind
-    · clear l2 i2 b2
-      (try log_simp); grind)
+        first
+        | exact hl2b
+        | ((try log_simp); grind)
+    · first
+      | exact l3
+      | (clear l2 i2 b2
+         (try log_simp); grind)
+    · first
+      | exact l4
+      | (clear l2 i2 b2
+         (try log_simp); grind))
 
 set_option maxHeartbeats 1000000 in
 theorem linv_commit {s s' : State} {a : ActorId} {c : Choice} (inv1 : Inv1 s) (bnd : Bnd s) (g : Linv s)
@@ -123,19 +139,27 @@ theorem linv_commit {s s' : State} {a : ActorId} {c : Choice} (inv1 : Inv1 s) (b
   conc_split hs
   all_goals (
     refine ⟨?_, fun b t => ?_, ?_, ?_⟩
-    · clear l2 i2 b2
-      (try log_simp); grind
-    · have := l2 b t; have := i2 b; have := b2 b t
+    · first
+      | exact l1
+      | (clear l2 i2 b2
+         (try log_simp); grind)
+    · have hl2b := l2 b t; have := i2 b; have := b2 b t
       clear l2 i2 b2
       by_cases hba : b = a
       · subst hba; (try log_simp); grind
       · have hab : ¬ a = b := fun h => hba h.symm
         try simp only [State.put, State.putS, State.finish, State.write, upd_apply, if_neg hba, if_neg hab]
-        (try log_simp); grind
-    · clear l2 i2 b2
-      (try log_simp); grind
-    · clear l2 i2 b2
-      (try log_simp); grind)
+        first
+        | exact hl2b
+        | ((try log_simp); grind)
+    · first
+      | exact l3
+      | (clear l2 i2 b2
+         (try log_simp); grind)
+    · first
+      | exact l4
+      | (clear l2 i2 b2
+         (try log_simp); grind))
 
 set_option maxHeartbeats 1000000 in
 theorem linv_abort {s s' : State} {a : ActorId} {c : Choice} (inv1 : Inv1 s) (bnd : Bnd s) (g : Linv s)
@@ -153,19 +177,27 @@ theorem linv_abort {s s' : State} {a : ActorId} {c : Choice} (inv1 : Inv1 s) (bn
   conc_split hs
   all_goals (
     refine ⟨?_, fun b t => ?_, ?_, ?_⟩
-    · clear l2 i2 b2
-      (try log_simp); grind
-    · have := l2 b t; have := i2 b; have := b2 b t
+    · first
+      | exact l1
+      | (clear l2 i2 b2
+         (try log_simp); grind)
+    · have hl2b := l2 b t; have := i2 b; have := b2 b t
       clear l2 i2 b2
       by_cases hba : b = a
       · subst hba; (try log_simp); grind
       · have hab : ¬ a = b := fun h => hba h.symm
         try simp only [State.put, State.putS, State.finish, State.write, upd_apply, if_neg hba, if_neg hab]
-        (try log_simp); grind
-    · clear l2 i2 b2
-      (try log_simp); grind
-    · clear l2 i2 b2
-      (try log_simp); grind)
+        first
+        | exact hl2b
+        | ((try log_simp); grind)
+    · first
+      | exact l3
+      | (clear l2 i2 b2
+         (try log_simp); grind)
+    · first
+      | exact l4
+      | (clear l2 i2 b2
+         (try log_simp); grind))
 
 set_option maxHeartbeats 1000000 in
 theorem linv_after {s s' : State} {a : ActorId} {c : Choice} (inv1 : Inv1 s) (bnd : Bnd s) (g : Linv s)
@@ -183,19 +215,27 @@ theorem linv_after {s s' : State} {a : ActorId} {c : Choice} (inv1 : Inv1 s) (bn
   conc_split hs
   all_goals (
     refine ⟨?_, fun b t => ?_, ?_, ?_⟩
-    · clear l2 i2 b2
-      (try log_simp); grind
-    · have := l2 b t; have := i2 b; have := b2 b t
+    · first
+      | exact l1
+      | (clear l2 i2 b2
+         (try log_simp); grind)
+    · have hl2b := l2 b t; have := i2 b; have := b2 b t
       clear l2 i2 b2
       by_cases hba : b = a
       · subst hba; (try log_simp); grind
       · have hab : ¬ a = b := fun h => hba h.symm
         try simp only [State.put, State.putS, State.finish, State.write, upd_apply, if_neg hba, if_neg hab]
-        (try log_simp); grind
-    · clear l2 i2 b2
-      (try log_simp); grind
-    · clear l2 i2 b2
-      (try log_simp); grind)
+        first
+        | exact hl2b
+        | ((try log_simp); grind)
+    · first
+      | exact l3
+      | (clear l2 i2 b2
+         (try log_simp); grind)
+    · first
+      | exact l4
+      | (clear l2 i2 b2
+         (try log_simp); grind))
 
 set_option maxHeartbeats 1000000 in
 theorem linv_use {s s' : State} {a : ActorId} {c : Choice} (inv1 : Inv1 s) (bnd : Bnd s) (g : Linv s)
@@ -213,19 +253,27 @@ theorem linv_use {s s' : State} {a : ActorId} {c : Choice} (inv1 : Inv1 s) (bnd 
   conc_split hs
   all_goals (
     refine ⟨?_, fun b t => ?_, ?_, ?_⟩
-    · clear l2 i2 b2
-      (try log_simp); grind
-    · have := l2 b t; have := i2 b; have := b2 b t
+    · first
+      | exact l1
+      | (clear l2 i2 b2
+         (try log_simp); grind)
+    · have hl2b := l2 b t; have := i2 b; have := b2 b t
       clear l2 i2 b2
       by_cases hba : b = a
       · subst hba; (try log_simp); grind
       · have hab : ¬ a = b := fun h => hba h.symm
         try simp only [State.put, State.putS, State.finish, State.write, upd_apply, if_neg hba, if_neg hab]
-        (try log_simp); grind
-    · clear l2 i2 b2
-      (try log_simp); grind
-    · clear l2 i2 b2
-      (try log_simp); grind)
+        first
+        | exact hl2b
+        | ((try log_simp); grind)
+    · first
+      | exact l3
+      | (clear l2 i2 b2
+         (try log_simp); grind)
+    · first
+      | exact l4
+      | (clear l2 i2 b2
+         (try log_simp); grind))
 
 set_option maxHeartbeats 1000000 in
 theorem linv_sess {s s' : State} {a : ActorId} {c : Choice} (inv1 : Inv1 s) (bnd : Bnd s) (g : Linv s)
@@ -243,19 +291,27 @@ theorem linv_sess {s s' : State} {a : ActorId} {c : Choice} (inv1 : Inv1 s) (bnd
   conc_split hs
   all_goals (
     refine ⟨?_, fun b t => ?_, ?_, ?_⟩
-    · clear l2 i2 b2
-      (try log_simp); grind
-    · have := l2 b t; have := i2 b; have := b2 b t
+    · first
+      | exact l1
+      | (clear l2 i2 b2
+         (try log_simp); grind)
+    · have hl2b := l2 b t; have := i2 b; have := b2 b t
       clear l2 i2 b2
       by_cases hba : b = a
       · subst hba; (try log_simp); grind
       · have hab : ¬ a = b := fun h => hba h.symm
         try simp only [State.put, State.putS, State.finish, State.write, upd_apply, if_neg hba, if_neg hab]
-        (try log_simp); grind
-    · clear l2 i2 b2
-      (try log_simp); grind
-    · clear l2 i2 b2
-      (try log_simp); grind)
+        first
+        | exact hl2b
+        | ((try log_simp); grind)
+    · first
+      | exact l3
+      | (clear l2 i2 b2
+         (try log_simp); grind)
+    · first
+      | exact l4
+      | (clear l2 i2 b2
+         (try log_simp); grind))
 
 set_option maxHeartbeats 1000000 in
 theorem linv_close {s s' : State} {a : ActorId} {c : Choice} (inv1 : Inv1 s) (bnd : Bnd s) (g : Linv s)
@@ -273,19 +329,27 @@ theorem linv_close {s s' : State} {a : ActorId} {c : Choice} (inv1 : Inv1 s) (bn
   conc_split hs
   all_goals (
     refine ⟨?_, fun b t => ?_, ?_, ?_⟩
-    · clear l2 i2 b2
-      (try log_simp); grind
-    · have := l2 b t; have := i2 b; have := b2 b t
+    · first
+      | exact l1
+      | (clear l2 i2 b2
+         (try log_simp); grind)
+    · have hl2b := l2 b t; have := i2 b; have := b2 b t
       clear l2 i2 b2
       by_cases hba : b = a
       · subst hba; (try log_simp); grind
       · have hab : ¬ a = b := fun h => hba h.symm
         try simp only [State.put, State.putS, State.finish, State.write, upd_apply, if_neg hba, if_neg hab]
-        (try log_simp); grind
-    · clear l2 i2 b2
-      (try log_simp); grind
-    · clear l2 i2 b2
-      (try log_simp); grind)
+        first
+        | exact hl2b
+        | ((try log_simp); grind)
+    · first
+      | exact l3
+      | (clear l2 i2 b2
+         (try log_simp); grind)
+    · first
+      | exact l4
+      | (clear l2 i2 b2
+         (try log_simp); grind))
 
 set_option maxHeartbeats 1000000 in
 theorem linv_exp {s s' : State} {a : ActorId} {c : Choice} (inv1 : Inv1 s) (bnd : Bnd s) (g : Linv s)
@@ -303,18 +367,26 @@ theorem linv_exp {s s' : State} {a : ActorId} {c : Choice} (inv1 : Inv1 s) (bnd 
   conc_split hs
   all_goals (
     refine ⟨?_, fun b t => ?_, ?_, ?_⟩
-    · clear l2 i2 b2
-      (try log_simp); grind
-    · have := l2 b t; have := i2 b; have := b2 b t
+    · first
+      | exact l1
+      | (clear l2 i2 b2
+         (try log_simp); grind)
+    · have hl2b := l2 b t; have := i2 b; have := b2 b t
       clear l2 i2 b2
       by_cases hba : b = a
       · subst hba; (try log_simp); grind
       · have hab : ¬ a = b := fun h => hba h.symm
         try simp only [State.put, State.putS, State.finish, State.write, upd_apply, if_neg hba, if_neg hab]
-        (try log_simp); grind
-    · clear l2 i2 b2
-      (try log_simp); grind
-    · clear l2 i2 b2
-      (try log_simp); grind)
+        first
+        | exact hl2b
+        | ((try log_simp); grind)
+    · first
+      | exact l3
+      | (clear l2 i2 b2
+         (try log_simp); grind)
+    · first
+      | exact l4
+      | (clear l2 i2 b2
+         (try log_simp); grind))
 
 end Lungo.Conc
